@@ -49,7 +49,7 @@ func argvToCmdLineStr(argv []string) string {
 func init() {
 	vlib.Register(&vlib.Check{
 		ID: "C10", Engine: "E2",
-		Rule: "argument vectors after the plain command name `vargsrec`: (S1) one argument, every string up to length 3 (quick) / 4 (thorough) over the 23-character alphabet of C08 and up to length 2 / 3 over that alphabet plus % ` = - > < ? : ! / ]; (S2) two arguments of length <= 1 over the 34 characters and the empty string (thorough: also two arguments of length <= 2 and three of length <= 1 over the 23 characters and the empty string); (S3) every vector of 1..5 (quick) / 1..6 (thorough) arguments over {empty, a, space, $x}. Each vector is escaped by the mirror of argvToCmdLineStr and by the real esccli builtin (called directly with the vector as parameters; for S1 up to length 2, S2 with 34 characters and S3 also as a method with the array as JSON on stdin), the result is parsed by expressions.ParseBlock (must be exactly one function with that command), by StatementParametersParser in exec mode and executed with a recording builtin (arguments must equal the vector). (E2E) vectors of one argument of length <= 1 (thorough <= 2) and two arguments of length <= 1 over a 12 (thorough 23) character alphabet and the empty string are passed to the murex binary built from the tree under test as `--execute <argv dumper> arg...`. A failing vector is minimised (greedy deletion of arguments and characters while the same clause fails) and reported under the minimal vector. non-trivial = the escaped command line differs from the arguments joined by spaces (something had to be escaped) or an argument is empty",
+		Rule: "argument vectors after the plain command name `vargsrec`: (S1) one argument, every string up to length 3 (quick) / 4 (thorough) over the 23-character alphabet of C08 and up to length 2 / 3 over that alphabet plus % ` = - > < ? : ! / ]; (S2) two arguments of length <= 1 over the 34 characters and the empty string (thorough: also two arguments of length <= 2 and three of length <= 1 over the 23 characters and the empty string); (S3) every vector of 1..5 (quick) / 1..6 (thorough) arguments over {empty, a, space, $x}. Each vector is escaped by the mirror of argvToCmdLineStr and by the real esccli builtin (called directly with the vector as parameters; for S1 up to length 2, S2 with 34 characters and S3 also as a method with the array as JSON on stdin), the result is parsed by expressions.ParseBlock (must be exactly one function with that command), by StatementParametersParser in exec mode and executed with a recording builtin (arguments must equal the vector). (E2E) vectors of one argument of length <= 1 over the 34 characters (thorough: also length 2 over the 23) and two arguments of length <= 1 over {empty a space $ ; ' \\ LF} (thorough: the 23 characters and the empty string) are passed to the murex binary built from the tree under test as `--execute <argv dumper> arg...`. A failing vector is minimised (greedy deletion of arguments and characters while the same clause fails) and reported under the minimal vector. non-trivial = the escaped command line differs from the arguments joined by spaces (something had to be escaped) or an argument is empty",
 		Run:    run,
 		Replay: replay,
 		Post:   post,
@@ -207,6 +207,15 @@ func (e *env) verdict(seam string, args []string) (clause, detail string) {
 		}
 	case "e2e":
 		got, raw, err := e.runBinary(args)
+		if err != nil && err.Error() == "timeout" {
+			got, raw, err = e.runBinary(args) // the machine may be overloaded: once more
+		}
+		if err != nil && err.Error() == "timeout" {
+			// inconclusive, never a violation
+			e.c.Note("e2e: the murex binary did not finish within the ceiling for %q (inconclusive, not asserted)", args)
+			e.c.P.Exhaustive = false
+			return "", ""
+		}
 		if err != nil {
 			clause, detail = "argv-round-trip", fmt.Sprintf("`murex --execute <argv dumper> %q` failed: %v; %s", args, err, vlib.Clip(raw, 400))
 		} else if !eq(got, args) {
@@ -221,7 +230,7 @@ func (e *env) verdict(seam string, args []string) (clause, detail string) {
 
 // runBinary: real binary, external argv dumper. Results are kept so that mirrorBinding does not run it again.
 func (e *env) runBinary(args []string) (got []string, raw string, err error) {
-	ctx, cancel := context.WithTimeout(context.Background(), 60*time.Second)
+	ctx, cancel := context.WithTimeout(context.Background(), 120*time.Second)
 	defer cancel()
 	cmd := exec.CommandContext(ctx, e.bin, append([]string{"--execute", e.script}, args...)...)
 	var so, se strings.Builder
@@ -316,7 +325,20 @@ func (e *env) one(seam string, args []string, sample bool) {
 			st = "failed"
 		}
 		outcome = seam + " " + st
-		min := e.minimise(seam, args, clause)
+		var min []string
+		if seam == "e2e" {
+			// a run of the binary is expensive: the smaller vector is chosen with the in-process exec
+			// seam and then confirmed by one run of the binary (else the original vector is reported)
+			min = args
+			if cl, _ := e.verdict("exec", args); cl == clause {
+				cand := e.minimise("exec", args, clause)
+				if cl, _ := e.verdict("e2e", cand); cl == clause {
+					min = cand
+				}
+			}
+		} else {
+			min = e.minimise(seam, args, clause)
+		}
 		if !eq(min, args) {
 			c.Extra("violations reported under a smaller vector", 1)
 			_, detail = e.verdict(seam, min)
@@ -444,13 +466,14 @@ func run(c *vlib.Ctx) {
 		e.mirrorBinding(args)
 		return true
 	}
-	sub := []string{"", "a", " ", "$", ";", "'", "\"", "\\", "~", "{", "\n", "*", "|"}
-	l1 := 1
+	sub := []string{"", "a", " ", "$", ";", "'", "\\", "\n"}
 	if !quick {
-		l1 = 2
 		sub = append([]string{""}, sigma...)
 	}
-	vlib.Strings(sigmaX, 0, l1, func(s string, _ []int) bool { return e2e([]string{s}) })
+	vlib.Strings(sigmaX, 0, 1, func(s string, _ []int) bool { return e2e([]string{s}) })
+	if !quick {
+		vlib.Strings(sigma, 2, 2, func(s string, _ []int) bool { return e2e([]string{s}) })
+	}
 	vlib.Seqs(len(sub), 2, 2, func(idx []int) bool { return e2e([]string{sub[idx[0]], sub[idx[1]]}) })
 }
 
